@@ -13,8 +13,11 @@ from ..terms import valida
 from .c10 import limit_parts
 
 PROP = "C16"
-THEOREMS = []
-FACT_LEMMAS = []
+THEOREMS = ["C16_parser_inventory", "C16_parsers_accepted", "C16_analysis_sound", "C16_parsers_leave_the_spec_alone",
+            "C16_rejects_in_place_parser"]
+FACT_LEMMAS = ["C16_parsers_accepted is a closed computation on Gen/ParsersGen.v (abstraction of the ten parser bodies, regenerated from source)"]
+DEPENDS = ["Taint.v", "Gen/ParsersGen.v", "Proofs/TaintProof.v", "Properties/C16.v"]
+SPEC_VO = ["Taint.vo"]
 ASSUMPTIONS = ["spec structures are trees (no container shared between two places of one spec)"]
 
 
